@@ -277,22 +277,29 @@ def next_previous(cur, target):
     return ok and e.added == n and f.added == p
 
 
-@lemma({"year": int, "month": int, "occ": int, "dow": int}, params=lambda tier, seed: [[a, a + 399] for a in range(1, 1600, 400)] + [[1601, 1899], [2101, 2400]] + [[a, a + 399] for a in range(2401, 9999, 400)]
-       + ([[a, a + 24] for a in range(1900, 2100, 25)] + [[2100, 2100]] if tier == "thorough" else []),   # 1900-2100 month-start table: ~200 s per 25 years
-       budget=200, per_path=30,
-       thorough_budget=400,
-       bounds="from_year_month_week_and_day for every (year in a 400-year window, month, occurrence 1..5, weekday): the result lies in that "
-              "month, has that weekday, is the occ-th such day (day in ((occ-1)*7, occ*7]) or, when the month has no 5th one, the last")
+def _nth_params(tier, seed):
+    ws = [[a, a + 399] for a in range(1, 1600, 400)] + [[1601, 1899], [2101, 2400]] + [[a, a + 399] for a in range(2401, 9999, 400)]
+    if tier == "thorough":
+        ws += [[a, a + 24] for a in range(1900, 2100, 25)] + [[2100, 2100]]      # the 1900-2100 month-start table: ~200 s per 25 years
+    else:
+        ws = [ws[seed % len(ws)]]
+    return [w + [m] for w in ws for m in range(1, 13)]
+
+
+@lemma({"year": int, "month": int, "occ": int, "dow": int}, params=_nth_params, budget=200, per_path=30, thorough_budget=400,
+       bounds="from_year_month_week_and_day for every (year in a 400-year window, month = parameter, occurrence 1..5, weekday): the result lies "
+              "in that month, has that weekday, is the occ-th such day (day in ((occ-1)*7, occ*7]) or, when the month has no 5th one, the "
+              "last; one seeded window x 12 months in quick, every window in thorough")
 def nth_weekday(P):
     from props import calsetup as cs
     from props import ymdrecord
-    lo, hi = P
+    lo, hi, the_month = P
     cal, calc, _a, _b = cs.prepare("ISO")
     ymdrecord.install()
 
     def h(year, month, occ, dow):
         assume(lo <= year <= min(hi, 9999))
-        assume(1 <= month <= 12)
+        assume(month == the_month)
         assume(1 <= occ <= 5)
         assume(1 <= dow <= 7)
         r = LocalDate.from_year_month_week_and_day(year, month, occ, IsoDayOfWeek(dow))
